@@ -70,6 +70,14 @@ CLAIMED = {
          "(7 in the thorough tier) plus random larger graphs are pushed through the real Graph/ReducedGraph/BeadStructure code and compared with the model and an independent spec.",
          "Lean kernel + three standard axioms; harness/driver; PARTIAL: structure-id and reduce/expand clauses have no theorem.",
          "6/C16"),
+ "C05": ("Lean 4 proof by invariants over all reachable states of a transition-system model of ProcessData / Worker::Run for every worker count, file "
+         "length, --nframes budget and schedule (reads and merges in file order, reader and merge mutual exclusion, deadlock freedom, bounded steps, final "
+         "state, thread-count independence) + replay of the real CsgApplication under a controlled scheduler (VOTCA_VERIF hooks) on the model",
+         "The ordered-mode protocol is proved for all n, F, budgets and schedules. The model is tied to the working tree by driving the real "
+         "CsgApplication (stub readers) through generated and exhaustively enumerated schedules and replaying every event trace on the model's step "
+         "function; mutual exclusion, frame-once, merge order and deadlock clauses are also judged on the traces themselves.",
+         "Lean kernel + three standard axioms; harness scheduler and hooks (commit 7e4ea0bfd); mutexes as binary semaphores; unordered mode: no theorem, budget clause is a recorded finding; OS scheduling/memory model not modelled.",
+         "6/C05"),
 }
 REASONS = {}
 
@@ -98,7 +106,7 @@ def main():
             "guard": "VOTCA_VERIF",
             "enable": "checks compile /repo sources themselves (tools/vbuild.py) with -DVOTCA_VERIF; /repo/_build is never used",
             "baseline_off_cmd": "python3 tools/baseline.py",
-            "source_commits": [],
+            "source_commits": ["7e4ea0bfd"],
             "add_only": True,
         },
         "engines": [
